@@ -319,8 +319,130 @@ func fragCheck(lb *lexer.Builder, src string, frags []string) (ok bool, kind, de
 }
 
 type c10Payload struct {
-	Src   []byte   `json:"src"`
-	Frags []string `json:"frags,omitempty"`
+	Src    []byte   `json:"src"`
+	Frags  []string `json:"frags,omitempty"`
+	Policy int      `json:"policy,omitempty"` // 1.. = the queueing token interceptor of that policy (c10QueueCheck)
+	Pow    bool     `json:"pow,omitempty"`    // the consuming '^' interceptor (c10PluginCheck)
+}
+
+// ---- token interceptors that hand out tokens without consuming input
+
+// c10Policies: what a queueing interceptor does with the token t that next() just returned: how many
+// synthesized zero-width tokens it hands out BEFORE t and AFTER t (replayed from a queue on the following
+// requests, without calling next() and without touching the cursor). next() is called at most once per
+// request (it continues the chain of THIS request; it is not a general "lex one more token").
+var c10PolicyNames = []string{"", "one synthesized token after every token", "two synthesized tokens after every identifier x", "a virtual line token before every token that follows a line break", "three synthesized tokens after every token", "one token after every token and a second interceptor that passes through"}
+
+func c10QueueBuilder(policy int, log *[]token.Token) *lexer.Builder {
+	lb := lexer.NewBuilder()
+	virt := lb.RegisterTokenType("virtual")
+	var queue []token.Token
+	var last token.Position
+	synth := func() token.Token { return token.Token{Type: virt, Literal: "", Start: last, End: last} }
+	fetch := func(next func() token.Token) token.Token {
+		t := next()
+		*log = append(*log, t)
+		last = t.End
+		return t
+	}
+	lb.UseTokenInterceptor(func(l *lexer.Lexer, next func() token.Token) token.Token {
+		if len(queue) > 0 {
+			t := queue[0]
+			queue = queue[1:]
+			return t
+		}
+		switch policy {
+		case 1, 5:
+			t := fetch(next)
+			if t.Type != token.EOF {
+				queue = append(queue, synth())
+			}
+			return t
+		case 2:
+			t := fetch(next)
+			if t.Type == token.IDENT && t.Literal == "x" {
+				queue = append(queue, synth(), synth())
+			}
+			return t
+		case 3:
+			v := synth()
+			t := fetch(next)
+			if t.AfterNewline && t.Type != token.EOF {
+				queue = append(queue, t)
+				return v
+			}
+			return t
+		default:
+			t := fetch(next)
+			if t.Type != token.EOF {
+				queue = append(queue, synth(), synth(), synth())
+			}
+			return t
+		}
+	})
+	if policy == 5 {
+		lb.UseTokenInterceptor(func(l *lexer.Lexer, next func() token.Token) token.Token { return next() })
+	}
+	return lb
+}
+
+// c10QueueCheck: the tokens the LIBRARY builds (what next() returned inside the interceptor, in order, up
+// to the first end-of-input) are the tokens of the plain lexer on the same source - type, slice, start and
+// end; so no byte is skipped or read twice whatever an interceptor hands out in between. (The after-newline
+// flag and the comments belong to the REQUEST during which the lexer skipped them; a request answered from
+// the queue drops them - the property defines the flag for the plain token stream only, so it is not compared.)
+func c10QueueCheck(policy int, src string) (kind, detail string) {
+	defer func() {
+		if r := recover(); r != nil {
+			kind, detail = "panic", fmt.Sprint(r)
+		}
+	}()
+	plain, k, _ := lexAll(lexer.NewBuilder(), src)
+	if k != "" {
+		return "", "" // the plain lexer's own problem: reported by the span oracle
+	}
+	var want []token.Token
+	for _, t := range plain {
+		want = append(want, t)
+		if t.Type == token.EOF {
+			break
+		}
+	}
+	var log []token.Token
+	l := c10QueueBuilder(policy, &log).Build(src)
+	limit := 8*len(src) + 16
+	done := false
+	for i := 0; i < limit; i++ {
+		if t := l.NextToken(); t.Type == token.EOF {
+			done = true
+			break
+		}
+	}
+	if !done {
+		return "queue-no-eof", fmt.Sprintf("no end-of-input within %d requests", limit)
+	}
+	var got []token.Token
+	for _, t := range log {
+		got = append(got, t)
+		if t.Type == token.EOF {
+			break
+		}
+	}
+	for i := 0; i < len(want) || i < len(got); i++ {
+		if i >= len(got) {
+			return "queue-token-lost", fmt.Sprintf("the library built %d tokens, the plain lexer %d; first missing: %s", len(got), len(want), tokString(want[i]))
+		}
+		if i >= len(want) {
+			return "queue-token-extra", fmt.Sprintf("the library built %d tokens, the plain lexer %d; first extra: %s", len(got), len(want), tokString(got[i]))
+		}
+		span := func(t token.Token) string {
+			return fmt.Sprintf("%d:%q@%d:%d-%d:%d", t.Type, t.Literal, t.Start.Line, t.Start.Column, t.End.Line, t.End.Column)
+		}
+		if g, w := span(got[i]), span(want[i]); g != w {
+			return "queue-token-differs", fmt.Sprintf("token %d built by the library under the interceptor: %s; by the plain lexer: %s", i, g, w)
+		}
+	}
+	return "", ""
 }
 
 var c10single = map[byte]*core.Violation{}
@@ -469,7 +591,7 @@ func c10Run(c *core.Ctx) {
 	// sequences, long or truncated escapes), each at the start, in the middle and at the end of every short
 	// byte string over the alphabet
 	chunks := []string{"\xEF\xBB\xBF", "\xEF\xBB", "\xC3\xA9", "\xE2\x80\xA8", "\xF0\x9F\x98\x80", "\"\\u{0000041}\"", "\"\\u{1234567", "'\\u{", "\"\\x4", "'\\u00", "\"\\u{110000}\"",
-		"#!", "/*", "\\\n", "0x", "0b2", "1e+", "1.e5", "..", "`\\`", "`\\\\`", "'\\", "\"\\\n\"", "//\r\n", "\xFF", "\x80"}
+		"#!", "/*", "/**/", "/* c */", "*/", "/*\n*/", "\\\n", "0x", "0b2", "1e+", "1.e5", "..", "`\\`", "`\\\\`", "'\\", "\"\\\n\"", "//\r\n", "\xFF", "\x80"}
 	short := [][]byte{{}}
 	for _, b := range A {
 		short = append(short, []byte{b})
@@ -595,11 +717,74 @@ func c10Run(c *core.Ctx) {
 				c.Inc("inputs")
 				c.Inc("plugin_token_inputs")
 				if k, d := c10PluginCheck(lbx, src); k != "" && c.ShrinkOK("plug"+k) {
-					pl, _ := json.Marshal(c10Payload{Src: []byte(src)})
+					pl, _ := json.Marshal(c10Payload{Src: []byte(src), Pow: true})
 					c.Violate(core.Violation{Kind: k, Config: "plugin-token", Case: fmt.Sprintf("%q", src), Detail: d, Payload: pl, Size: L})
 				}
 				return true
 			})
+		}
+	}
+
+	// (1g) queueing token interceptors (tokens handed out without consuming input; look-ahead): all byte
+	// strings <= 5 over {a x ; LF SP ( " /} and all sequences <= 3 of the token alphabet in three joinings
+	{
+		alpha := []byte{'a', 'x', ';', '\n', ' ', '(', '"', '/'}
+		run := func(src string, size int) {
+			c.Cur(src)
+			for policy := 1; policy <= 5; policy++ {
+				c.Inc("inputs")
+				c.Inc("queueing_interceptor_inputs")
+				if k, d := c10QueueCheck(policy, src); k != "" && c.ShrinkOK("queue"+k+fmt.Sprint(policy)) {
+					pl, _ := json.Marshal(c10Payload{Src: []byte(src), Policy: policy})
+					c.Violate(core.Violation{Kind: k, Config: "interceptor: " + c10PolicyNames[policy], Case: fmt.Sprintf("%q", src), Detail: d, Payload: pl, Size: size})
+				}
+			}
+		}
+		for L := 1; L <= 5; L++ {
+			gen.EachSeq(len(alpha), L, func(idx []int) bool {
+				if !c.Next() || c.Tick() {
+					return true
+				}
+				b := make([]byte, L)
+				for i, x := range idx {
+					b[i] = alpha[x]
+				}
+				run(string(b), L)
+				return true
+			})
+		}
+		for L := 1; L <= 3; L++ {
+			gen.EachSeq(len(gen.T), L, func(idx []int) bool {
+				if !c.Next() || c.Tick() {
+					return true
+				}
+				for _, sep := range []string{" ", "\n", ""} {
+					run(gen.Join(gen.T, idx, sep), 10+L)
+				}
+				return true
+			})
+		}
+	}
+
+	// (1f) identifier spellings: each alone and between other tokens, against the independent tokenizer
+	for ii, name := range gen.Identifiers() {
+		if !c.Mine(int64(ii)) || c.Tick() {
+			continue
+		}
+		for _, fr := range [][]string{{name}, {"let", name, "=", "1"}, {name, "(", name, ")"}, {"a", ".", name}, {name, "+", name}} {
+			for _, sep := range []string{" ", "\n", ""} {
+				src := strings.Join(fr, sep)
+				ok, k, d := fragCheck(lb, src, fr)
+				if !ok {
+					continue
+				}
+				c.Inc("inputs")
+				c.Inc("identifier_inputs")
+				if k != "" && c.ShrinkOK("id"+k) {
+					pl, _ := json.Marshal(c10Payload{Src: []byte(src), Frags: fr})
+					c.Violate(core.Violation{Kind: "frag-" + k, Config: "identifier", Case: fmt.Sprintf("%q", src), Detail: d, Payload: pl, Size: len(src)})
+				}
+			}
 		}
 	}
 
@@ -718,6 +903,12 @@ func c10Replay(pl json.RawMessage) (string, []core.Violation) {
 	for i, t := range toks {
 		out += fmt.Sprintf("  %d: %v nl=%v\n", i, t, t.AfterNewline)
 	}
+	if p.Policy > 0 {
+		if k, d := c10QueueCheck(p.Policy, src); k != "" {
+			return out + "interceptor: " + c10PolicyNames[p.Policy], []core.Violation{{Kind: k, Case: fmt.Sprintf("%q", src), Detail: d}}
+		}
+		return out, nil
+	}
 	if p.Frags != nil {
 		if ok, k, d := fragCheck(lb, src, p.Frags); ok && k != "" {
 			return out, []core.Violation{{Kind: "frag-" + k, Case: fmt.Sprintf("%q", src), Detail: d}}
@@ -733,7 +924,7 @@ func c10Replay(pl json.RawMessage) (string, []core.Violation) {
 func init() {
 	core.Register(&core.PropSpec{
 		ID: "C10", Level: "exploration",
-		Rule:     "ALL byte strings of length 0..n (n=5 quick, 6 thorough) over the 26-byte alphabet {a 1 0 x e . + - = ! < & | / \" ' ` \\ SP LF CR TAB ( { 0xC3 NUL} (one byte per lexer branch), each tokenised until end-of-input was returned 3 times, checked by a span-consistency oracle (positions inside the source, literal = source slice, gaps only white space/comments, no overlap, keyword classification, operator/identifier maximal munch, after-newline <=> LF in gap, stable end-of-input at len(src)); plus all sequences of <=3 (thorough: 4) of 63 well-formed lexeme fragments x all separator combinations compared token-by-token with an independent tokenizer. Every enumerated input is distinct; all are counted as non-trivial because each exercises the cursor/position bookkeeping (the empty input included once) Added families: 26 multi-byte chunks (byte order mark, UTF-8 sequences, long and truncated escapes) at the start / middle / end of every byte string of length <= 2; string literals made of every pair of the 61 literal fragments (both quotes) followed by a token, compared with the independent tokenizer; every code point of U+2000..U+203F and one per UTF-8 length in comments, strings, templates and identifiers; the scale family.",
+		Rule:     "ALL byte strings of length 0..n (n=5 quick, 6 thorough) over the 26-byte alphabet {a 1 0 x e . + - = ! < & | / \" ' ` \\ SP LF CR TAB ( { 0xC3 NUL} (one byte per lexer branch), each tokenised until end-of-input was returned 3 times, checked by a span-consistency oracle (positions inside the source, literal = source slice, gaps only white space/comments, no overlap, keyword classification, operator/identifier maximal munch, after-newline <=> LF in gap, stable end-of-input at len(src)); plus all sequences of <=3 (thorough: 4) of 63 well-formed lexeme fragments x all separator combinations compared token-by-token with an independent tokenizer. Every enumerated input is distinct; all are counted as non-trivial because each exercises the cursor/position bookkeeping (the empty input included once) Added families: 26 multi-byte chunks (byte order mark, UTF-8 sequences, long and truncated escapes) at the start / middle / end of every byte string of length <= 2; string literals made of every pair of the 61 literal fragments (both quotes) followed by a token, compared with the independent tokenizer; every code point of U+2000..U+203F and one per UTF-8 length in comments, strings, templates and identifiers; the scale family; identifier spellings (keyword prefixes/suffixes/infixes, _ and $ forms, lengths 2..40); queueing token interceptors (5 policies: 1, 2 or 3 synthesized zero-width tokens after/before library tokens, replayed from a queue without consuming input, also under a stacked pass-through interceptor) on all byte strings <= 5 over 8 bytes and all token sequences <= 3 in 3 joinings: the tokens the library builds equal the plain lexer's.",
 		Assume:   []string{"line model: LF ends a line; a lone CR in a gap is don't-care for the after-newline flag (property does not define it)", "columns are byte columns", "position base calibrated on the token of the input \"a\""},
 		QuickSec: 300, ThorSec: 1800, Run: c10Run, Replay: c10Replay,
 		Evals: "inputs", Nontriv: "nontrivial_inputs",
